@@ -52,6 +52,7 @@ var pkgDirs = []struct{ alias, dir string }{
 	{"bitio", "internal/bitio"},
 	{"pool", "internal/pool"},
 	{"sharpyuv", "sharpyuv"},
+	{"verifhook", "internal/verifhook"},
 }
 
 var (
